@@ -11,6 +11,7 @@
 //	       repository's packages and open descriptors after all behaviours (out + ".leak.json"); an unrecovered panic
 //	       kills this process, which the check sees as a non-zero exit status
 //
+//	accepterr -rounds R -n N -out f   accept errors (EMFILE) injected between connections (see burst.go)
 //	burst -rounds R -n N -out f   n connections accepted back to back right before accept reports net.ErrClosed (see burst.go)
 //
 // The driver never judges a property; it only records (exit 3 = harness failure).
@@ -31,7 +32,7 @@ import (
 
 func main() {
 	if len(os.Args) < 2 {
-		hx.Fatal("usage: tcpconn replay|burst ...")
+		hx.Fatal("usage: tcpconn replay|burst|accepterr ...")
 	}
 	mode := os.Args[1]
 	fs := flag.NewFlagSet(mode, flag.ExitOnError)
@@ -45,6 +46,7 @@ func main() {
 	hangMs := fs.Int("hang-ms", 4000, "how long to wait for handlers to return at the end")
 	par := fs.Int("par", 8, "behaviours executed concurrently")
 	prom := fs.Bool("prom", false, "also report to the real Prometheus collectors")
+	debugEvery := fs.Int("debug-every", 3, "every k-th behaviour / round runs with a debug-level logger (0: never)")
 	ownWaits := fs.Bool("own-waits", false, "wait only for observations of the acting connection")
 	rounds := fs.Int("rounds", 30, "burst: rounds")
 	burstN := fs.Int("n", 3, "burst: connections pending in the backlog when the listener is closed")
@@ -59,7 +61,7 @@ func main() {
 		var behs []behaviour
 		hx.ReadJSON(*in, &behs)
 		opt := options{seed: *seed, timeoutMs: *timeoutMs, unitMs: *unitMs, awaitMs: *awaitMs, holdMs: *holdMs, hangMs: *hangMs,
-			nkeys: *nkeys, cipher: *cipher, ownWaits: *ownWaits}
+			nkeys: *nkeys, cipher: *cipher, ownWaits: *ownWaits, debugEvery: *debugEvery}
 		var cap *capture
 		fd0 := 0
 		if *leak {
@@ -131,6 +133,8 @@ func main() {
 		}
 	case "burst":
 		runBurst(*rounds, *burstN, *seed, *out)
+	case "accepterr":
+		runAcceptErr(*rounds, *burstN, *seed, *out)
 	default:
 		hx.Fatal("unknown mode %s", mode)
 	}
